@@ -127,15 +127,19 @@ from props.C01 import prepare_persistence_overlay  # noqa: E402  (cfg(kani) file
 FPS = [("persistence.rs", "append_internal_with_rollback"), ("persistence.rs", "rollback_to_stable_state"), ("persistence.rs", "rollback_to_offset"), ("persistence.rs", "write_entry"), ("persistence.rs", "perform_fsync")]
 PA3 = ["file-system model crate::verif_fs", "model checksum instead of crc32fast::hash", "FsyncPolicy::Always", "entries with empty embedding/metadata (52-byte frame)"]
 PERSIST_HARNESSES = [
-    KH("O3.4/short_write", "c03_o4_short_write_rolled_back", "append_internal_with_rollback: the frame write stops after any j < 52 bytes and fails => Err, file truncated to the last good offset, counters restored, earlier frame untouched",
-       src="persistence.rs", functions=FPS, bounds="one good frame on disk; second append with the write cut at a symbolic byte j in 0..51; symbolic entries", assumptions=PA3, timeout=1500, replay="solver-only"),
+] + [
+    KH("O3.4/short_write_%d" % j_, "c03_o4_short_write_%d" % j_, "append_internal_with_rollback: the frame write stops after %d of 52 bytes and fails => Err, file truncated to the last good offset, counters restored, earlier frame untouched" % j_,
+       src="persistence.rs", functions=FPS, bounds="one good frame on disk; second append with the write cut after %d bytes; symbolic entries" % j_, assumptions=PA3, timeout=1500, replay="solver-only",
+       tier=("quick" if j_ == 7 else "thorough"))
+    for j_ in (0, 7, 51)
+] + [
     KH("O3.4/failed_fsync", "c03_o4_failed_fsync_rolled_back", "append_internal_with_rollback: frame fully written but the fsync fails => Err and the same restoration",
        src="persistence.rs", functions=FPS, bounds="one good frame; second append whose sync_all fails", assumptions=PA3, timeout=1500, replay="solver-only", tier="thorough"),
     KH("O3.4/rollback_fails", "c03_o4_rollback_failure_surfaces", "append_internal_with_rollback: when the rollback's own set_len or seek fails the call still returns Err (never acknowledged)",
        src="persistence.rs", functions=FPS, bounds="write cut after 10 bytes; set_len or seek of the rollback fails (symbolic choice)", assumptions=PA3, timeout=1500, replay="solver-only", tier="thorough"),
     KH("O3.4/batch", "c03_o4_batch_all_or_nothing", "append_batch_internal_with_rollback: a batch whose write is cut or whose fsync fails leaves no frame of the batch in the log (the fsync case keeps a complete frame on disk "
        "until the rollback truncates it)", src="persistence.rs", functions=FPS + [("persistence.rs", "append_batch_internal_with_rollback"), ("persistence.rs", "append_batch_internal")],
-       bounds="one good frame; a one-entry batch with a symbolic fault (write cut at any byte, or fsync failure)", assumptions=PA3, timeout=1500, replay="solver-only", tier="thorough"),
+       bounds="one good frame; a one-entry batch whose write is cut after 7 bytes or whose fsync fails (symbolic choice)", assumptions=PA3, timeout=1500, replay="solver-only", tier="thorough"),
     KH("O3.4/retry", "c03_o4_retry_after_rollback", "after a rolled-back short write a fault-free retry yields exactly two well-formed durable frames",
        src="persistence.rs", functions=FPS, bounds="write cut after 10 bytes, then a clean retry", assumptions=PA3, timeout=1500, replay="solver-only", tier="thorough"),
 ]
